@@ -62,6 +62,7 @@ func (p *c02) Init(tier string, seed int64) {
 	p.argLists = [][]stick.Value{{}, {0}, {1}, {2}, {-1}, {"x"}, {""}, {nil}, {1.5}, {math.NaN()}, {2, "f"}, {3, nil}, {"Y-m-d"}, {[]int{1, 2}}, {map[string]stick.Value{"a": "b"}}, {1, 2, 3},
 		{400}, {math.Inf(1)}, {-5, "ceil"}, {"a", "b"}, {true},
 		{"\\"}, {"Y-m-d\\"}, {"D, d M Y H:i:s \\a\\t"}, {"jS F y"}, {"%"}, {"%s %d %"}, {strings.Repeat("x", 300)}, {"é"}, {"\xff"}, {-1, -1}, {1 << 40}, {0.5, 0.5},
+		{2.5}, {2.9, "f"}, {"2.9"}, {3.5}, {7, -2}, {-2.5}, {0.9}, {1, 1.5}, {19}, {20}, {21, 1},
 		{map[string]stick.Value(nil)}, {[]stick.Value(nil)}, {(*int)(nil)}, {gen.ValStringer{S: "s"}}, {[]string{"a", "b"}, "x"}, {"", ""}, {" ", 2}}
 	p.nFilterCase = len(p.filters) * len(p.zoo)
 	// every context variable looked up with every awkward key, in every way a template can
